@@ -290,7 +290,14 @@ def r5(ctx: Ctx) -> None:
             if w.func not in funcs:
                 funcs.append(w.func)
     nst = 0
+    from ..kit import is_helper
+
     for f in funcs:
+        if is_helper(f) and ctx.cg.sites_calling(f.qualname) and all(s_.caller.cls is f.cls for s_ in ctx.cg.sites_calling(f.qualname)):
+            for s_ in ctx.cg.sites_calling(f.qualname):
+                if s_.caller not in funcs:
+                    funcs.append(s_.caller)
+            continue  # a private helper of Market: its stores are judged in its callers, where its arguments are known
         for p in ctx.paths(f.qualname):
             if p.exit[0] == "raise":
                 continue
